@@ -174,6 +174,15 @@ Definition shrink (s : st) (t : tid) (idx : nat) : st :=
     then set_nbuf s (updt (nbuf s) t (n - 1)) else s
   else s.
 
+(* NOT the code: the same block with `flag & SHMEM_FL_WRITTEN` instead of `flag == SHMEM_FL_WRITTEN`
+   (only used to show why the exact comparison matters: C03_shrink_loose_refuted) *)
+Definition shrink_loose (s : st) (t : tid) (idx : nat) : st :=
+  let n := nbuf s t in
+  if idx + 3 <=? n then
+    if (3 <=? length (filter (fun i => f_wr (flag s (t, i))) (seq (S idx) (n - S idx)))) && f_wr (flag s (t, n - 1))
+    then set_nbuf s (updt (nbuf s) t (n - 1)) else s
+  else s.
+
 Definition marker (s : st) (t : tid) (b : bufid) : st :=
   let n := losts s t in
   let lr := lostrec n (stale s b) in
